@@ -561,7 +561,8 @@ def r_lock_guards(ctx):
     ex = U.explorer(ctx, m)
     res = U.full_run(ctx, m)
     for a in P.accesses(m):
-        if a.attr == table and a.kind == 'elem_del':
+        is_pop = a.attr == table and a.kind == 'mutcall' and isinstance(a.node, ast.Call) and isinstance(a.node.func, ast.Attribute) and a.node.func.attr in ('pop', 'popitem', 'clear')
+        if (a.attr == table and a.kind == 'elem_del') or is_pop:
             n = U.node_containing(ex.cfg, a.node)
             inst = 'release deletes only the holder\'s entry'
             ok = _holder_is(P, ex, res, n.id, m, table, m.params[2])
@@ -873,3 +874,41 @@ def r_none_is_a_value(ctx):
     ctx.require(len(ff) == 1, 'the rule does not fire on its positive example fixtures/noneabsent')
     ctx.ok('positive example fixtures/noneabsent matched', 'fixtures/noneabsent/pysyncobj/sample.py', 'SampleDict.setdefault', nontrivial=False)
     ctx.expect_min(2)
+
+
+@rule('R-heap-discipline', 'the list behind the replicated priority queue is changed only through heapq (heappush / heappop ...): any '
+                           'direct append / insert / sort / item store can break the heap invariant and with it the order of get()')
+def r_heap_discipline(ctx):
+    P = ctx.P
+    n_cls = 0
+    for cls in P.classes.values():
+        if cls.module.name != 'batteries':
+            continue
+        heap_attrs = set()
+        for m in P.methods_of(cls):
+            for c in P.calls_in(m):
+                if isinstance(c.func, ast.Attribute) and isinstance(c.func.value, ast.Name) and c.func.value.id == 'heapq' and c.args and P.self_attr(c.args[0], m.self_name):
+                    heap_attrs.add(P.self_attr(c.args[0], m.self_name))
+        for ha in sorted(heap_attrs):
+            n_cls += 1
+            inst = '%s: self.%s is only changed through heapq' % (cls.name, ha)
+            ctx.tick()
+            bad = None
+            for m in P.methods_of(cls):
+                if m.name == '__init__':
+                    continue
+                for a in P.accesses(m):
+                    if a.attr != ha:
+                        continue
+                    if a.kind in ('elem_write', 'elem_del', 'aug') or (a.kind == 'mutcall' and isinstance(a.node, ast.Call) and isinstance(a.node.func, ast.Attribute)
+                                                                      and a.node.func.attr in ('append', 'insert', 'extend', 'sort', 'reverse', 'remove', 'pop')):
+                        bad = (m, a)
+            if bad is None:
+                ctx.ok(inst, '', 'heappush / heappop are the only writers outside __init__')
+            else:
+                m, a = bad
+                ctx.violation('%s:heap-changed-directly' % m.qualname, m.loc(a.node),
+                              '`%s` changes the heap list without heapq: the heap invariant (parent <= children) is not maintained for every sequence of puts, so get() can return '
+                              'items out of order' % unparse(a.node)[:60], instance=inst)
+    ctx.require(n_cls >= 1, 'no heapq-managed list found in batteries')
+    ctx.expect_min(1)
